@@ -75,6 +75,7 @@ import (
 	"github.com/koordinator-sh/koordinator/apis/extension"
 	slov1alpha1 "github.com/koordinator-sh/koordinator/apis/slo/v1alpha1"
 	"github.com/koordinator-sh/koordinator/pkg/slo-controller/noderesource/framework"
+	koordutil "github.com/koordinator-sh/koordinator/pkg/util"
 	"github.com/koordinator-sh/koordinator/pkg/util/sloconfig"
 	kit "github.com/koordinator-sh/koordinator/pkg/verifkit"
 )
@@ -110,20 +111,32 @@ var c09ResName = [2]string{"cpu", "memory"}
 type c09Res [2]int64
 
 type c09Pod struct {
-	Name       string
-	Class      extension.PriorityClass // ground truth: the pod's koordinator priority class
-	QoSLabel   extension.QoSClass      // value of the koordinator.sh/qosClass label ("" = no label)
-	Repr       int                     // how Class is expressed: 0 label, 1 spec.priority band, 2 default of the QoS label, 3 default of the kubernetes QoS
-	PrioVal    int64                   // spec.priority (-1 = nil)
-	Phase      corev1.PodPhase
-	Containers []c09Res // requests per container
-	Init       c09Res   // request of one (non-restartable) init container, zero = none
-	Overhead   c09Res
-	HasMetric  bool
-	Usage      c09Res
-	NUMA       []int // NUMA nodes of the resource-status annotation (nil = none)
+	NS           string
+	Name         string
+	Class        extension.PriorityClass // ground truth: the pod's koordinator priority class
+	QoSLabel     extension.QoSClass      // value of the koordinator.sh/qosClass label ("" = no label)
+	Repr         int                     // how Class is expressed: 0 label, 1 spec.priority band, 2 default of the QoS label, 3 default of the kubernetes QoS
+	PrioVal      int64                   // spec.priority (-1 = nil)
+	Phase        corev1.PodPhase
+	Containers   []c09Res // requests per container
+	Init         c09Res   // request of one (non-restartable) init container, zero = none
+	Sidecar      c09Res   // request of one restartable init container (sidecar), zero = none
+	SidecarFirst bool     // the sidecar is declared before the plain init container
+	PodLevel     c09Res   // pod-level requests (spec.resources.requests)
+	PodLevelHas  [2]bool
+	Overhead     c09Res
+	HasMetric    bool
+	Usage        c09Res  // a key omitted from the reported usage counts as 0 here
+	UsageOmit    [2]bool // the metric entry carries no key for this resource
+	Terminating  bool    // deletionTimestamp set (phase unchanged)
+	StatusQoS    bool    // status.qosClass filled in (as kubelet does)
+	NUMA         []int   // NUMA nodes of the resource-status annotation (nil = none)
+	NUMABroken   bool    // the resource-status annotation is not valid JSON (code and oracle: no binding)
 }
 
+// request is the pod's effective request as Kubernetes defines it: max(sum(containers) + sidecars, the peak while
+// the init containers run one after the other with the sidecars declared before them still running); a pod-level
+// request replaces the container aggregate of that resource; the overhead is added.
 func (p *c09Pod) request() c09Res {
 	var s c09Res
 	for _, c := range p.Containers {
@@ -131,8 +144,16 @@ func (p *c09Pod) request() c09Res {
 		s[1] += c[1]
 	}
 	for i := 0; i < 2; i++ {
-		if p.Init[i] > s[i] {
-			s[i] = p.Init[i]
+		s[i] += p.Sidecar[i]
+		peak := c09Max(p.Init[i], p.Sidecar[i])
+		if p.SidecarFirst && p.Init != (c09Res{}) {
+			peak = p.Init[i] + p.Sidecar[i]
+		}
+		if peak > s[i] {
+			s[i] = peak
+		}
+		if p.PodLevelHas[i] {
+			s[i] = p.PodLevel[i]
 		}
 		s[i] += p.Overhead[i]
 	}
@@ -146,6 +167,7 @@ func (p *c09Pod) hp() bool {
 func (p *c09Pod) lse() bool { return p.QoSLabel == extension.QoSLSE }
 
 type c09Metric struct {
+	NS    string
 	Name  string
 	Prio  extension.PriorityClass
 	Usage c09Res
@@ -157,20 +179,27 @@ type c09Input struct {
 	AnnoKind        int    // 0 none, 1 resources, 2 reservedCPUs (+ optional memory resource)
 	AnnoRes         c09Res
 	AnnoHas         [2]bool
+	AnnoPolicy      string // applyPolicy of the reservation annotation ("" / Default / ReservedCPUsOnly)
+	AnnoBroken      bool   // the reservation annotation is not valid JSON (nothing is reserved by it)
+	AnnoHoles       bool   // reservedCPUs is written as a list with holes instead of one range
 	Pods            []c09Pod
 	Dangling        []c09Metric // metrics of pods that are not in the list
 	HostApps        []c09Metric
 	Sys             c09Res
 	SysEmpty        bool     // systemUsage reported without a resource list
+	SysOmit         [2]bool  // systemUsage reported without this key (Sys is 0 there)
 	Zones           []c09Res // per-zone capacity; nil = no NodeResourceTopology object
 
-	Thr         [2]int64 // <res>ReclaimThresholdPercent
-	ThrViaLabel [2]bool  // delivered by the node label (ratio = Thr/100) instead of the strategy field
-	Policy      [2]int
-	CapPct      [2]int64 // Batch<Res>ThresholdPercent, -1 = nil
-	DegradeMin  int64
-	AgeNanos    int64 // now - status.updateTime
-	MetricKind  int   // 0 complete, 1 status without updateTime, 2 empty NodeMetric object
+	Thr          [2]int64 // <res>ReclaimThresholdPercent
+	ThrViaLabel  [2]bool  // delivered by the node label (ratio = Thr/100) instead of the strategy field
+	Layer        int      // where the strategy values live: 0 the strategy handed over, 1 node annotation over a cluster default, 2 nodeConfigs entry selected by a node label
+	Policy       [2]int
+	CapPct       [2]int64 // Batch<Res>ThresholdPercent, -1 = nil
+	DegradeMin   int64
+	AgeNanos     int64 // now - status.updateTime
+	MetricKind   int   // 0 complete, 1 status without updateTime, 2 empty NodeMetric object
+	DiffPermille int64 // ResourceDiffThreshold x 1000 (0 = the default 0.1); read by NeedSync / PreUpdate only
+	UpdateSec    int64 // UpdateTimeThresholdSeconds (0 = the default 300); read by PreUpdate only
 }
 
 func (in *c09Input) clone() *c09Input {
@@ -210,11 +239,13 @@ func (in *c09Input) systemUsed() c09Res {
 }
 
 // reserved is the statement's "node reservation": the larger of the kubelet's and the annotation's.
-// (Taking the larger, not the sum, gives the weaker bound, so an implementation that adds them passes too.)
+// (Taking the larger, not the sum, gives the weaker bound, so an implementation that adds them passes too.
+// An annotation with applyPolicy ReservedCPUsOnly "does not affect the total amount of schedulable resources";
+// whether it counts here is not decided by the statement, so the oracle takes the weaker bound and leaves it out.)
 func (in *c09Input) reserved() c09Res {
 	r := in.KubeletReserved
 	for i := 0; i < 2; i++ {
-		if in.AnnoKind != 0 && in.AnnoHas[i] && in.AnnoRes[i] > r[i] {
+		if in.AnnoKind != 0 && !in.AnnoBroken && in.AnnoPolicy != string(extension.NodeReservationApplyPolicyReservedCPUsOnly) && in.AnnoHas[i] && in.AnnoRes[i] > r[i] {
 			r[i] = in.AnnoRes[i]
 		}
 	}
@@ -274,6 +305,28 @@ func c09Share(zones int, numa []int, zone int) *big.Rat {
 	return new(big.Rat)
 }
 
+func c09MinI64(a, b int64) int64 {
+	if a < b {
+		return a
+	}
+	return b
+}
+
+// c09DegradeBucket abstracts the degrade time for the distinct-state evidence.
+func c09DegradeBucket(m int64) string {
+	switch {
+	case m <= 1:
+		return "1"
+	case m <= 15:
+		return "<=15"
+	case m <= 1440:
+		return "<=1d"
+	case m <= 10000:
+		return "<=1w"
+	}
+	return "years"
+}
+
 func c09Max(a, b int64) int64 {
 	if a > b {
 		return a
@@ -319,7 +372,11 @@ func c09Bound(in *c09Input, res, zone int, v c09Variant) *big.Rat {
 				charge = req
 			}
 		}
-		b.Sub(b, new(big.Rat).Mul(c09Int(charge), c09Share(z, p.NUMA, zone)))
+		numa := p.NUMA
+		if p.NUMABroken {
+			numa = nil
+		}
+		b.Sub(b, new(big.Rat).Mul(c09Int(charge), c09Share(z, numa, zone)))
 	}
 	if pol != c09PolRequest {
 		for _, d := range in.Dangling {
@@ -348,6 +405,17 @@ func c09Q(res int, v int64) resource.Quantity {
 	return *resource.NewQuantity(v, resource.BinarySI)
 }
 
+func c09RLOmit(v c09Res, omit [2]bool) corev1.ResourceList {
+	rl := corev1.ResourceList{}
+	if !omit[0] {
+		rl[corev1.ResourceCPU] = c09Q(c09CPU, v[0])
+	}
+	if !omit[1] {
+		rl[corev1.ResourceMemory] = c09Q(c09Mem, v[1])
+	}
+	return rl
+}
+
 func c09RL(v c09Res) corev1.ResourceList {
 	return corev1.ResourceList{corev1.ResourceCPU: c09Q(c09CPU, v[0]), corev1.ResourceMemory: c09Q(c09Mem, v[1])}
 }
@@ -366,7 +434,7 @@ func c09ReqRL(v c09Res, keepZero bool) corev1.ResourceList {
 
 func (p *c09Pod) build() corev1.Pod {
 	pod := corev1.Pod{
-		ObjectMeta: metav1.ObjectMeta{Name: p.Name, Namespace: c09NS, Labels: map[string]string{"app": p.Name}},
+		ObjectMeta: metav1.ObjectMeta{Name: p.Name, Namespace: p.NS, Labels: map[string]string{"app": p.Name}},
 		Spec:       corev1.PodSpec{NodeName: c09NodeName},
 		Status:     corev1.PodStatus{Phase: p.Phase},
 	}
@@ -390,6 +458,35 @@ func (p *c09Pod) build() corev1.Pod {
 	if p.Init != (c09Res{}) {
 		pod.Spec.InitContainers = []corev1.Container{{Name: "init", Resources: corev1.ResourceRequirements{Requests: c09ReqRL(p.Init, false)}}}
 	}
+	if p.Sidecar != (c09Res{}) {
+		always := corev1.ContainerRestartPolicyAlways
+		sc := corev1.Container{Name: "sidecar", RestartPolicy: &always, Resources: corev1.ResourceRequirements{Requests: c09ReqRL(p.Sidecar, false)}}
+		if p.SidecarFirst {
+			pod.Spec.InitContainers = append([]corev1.Container{sc}, pod.Spec.InitContainers...)
+		} else {
+			pod.Spec.InitContainers = append(pod.Spec.InitContainers, sc)
+		}
+	}
+	if p.PodLevelHas[0] || p.PodLevelHas[1] {
+		rl := corev1.ResourceList{}
+		for res, n := range []corev1.ResourceName{corev1.ResourceCPU, corev1.ResourceMemory} {
+			if p.PodLevelHas[res] {
+				rl[n] = c09Q(res, p.PodLevel[res])
+			}
+		}
+		pod.Spec.Resources = &corev1.ResourceRequirements{Requests: rl}
+	}
+	if p.Terminating {
+		ts := metav1.NewTime(c09Now.Add(-time.Minute))
+		grace := int64(30)
+		pod.DeletionTimestamp, pod.DeletionGracePeriodSeconds = &ts, &grace
+	}
+	if p.StatusQoS {
+		pod.Status.QOSClass = corev1.PodQOSBurstable
+		if p.Class == extension.PriorityBatch {
+			pod.Status.QOSClass = corev1.PodQOSBestEffort
+		}
+	}
 	if p.Overhead != (c09Res{}) {
 		pod.Spec.Overhead = c09ReqRL(p.Overhead, false)
 	}
@@ -400,7 +497,24 @@ func (p *c09Pod) build() corev1.Pod {
 		}
 		_ = extension.SetResourceStatus(&pod, st)
 	}
+	if p.NUMABroken {
+		if pod.Annotations == nil {
+			pod.Annotations = map[string]string{}
+		}
+		pod.Annotations[extension.AnnotationResourceStatus] = `{"numaNodeResources":[{"node":`
+	}
 	return pod
+}
+
+func joinComma(parts []string) string {
+	out := ""
+	for i, p := range parts {
+		if i > 0 {
+			out += ","
+		}
+		out += p
+	}
+	return out
 }
 
 func c09Ratio(pct int64) string { return fmt.Sprintf("%d.%02d", pct/100, pct%100) }
@@ -426,16 +540,31 @@ func (in *c09Input) build(now time.Time) c09Objects {
 	node.Status.Capacity[corev1.ResourcePods] = resource.MustParse("110")
 	node.Status.Allocatable[corev1.ResourcePods] = resource.MustParse("110")
 	if in.AnnoKind != 0 {
-		nr := extension.NodeReservation{}
+		nr := extension.NodeReservation{ApplyPolicy: extension.NodeReservationApplyPolicy(in.AnnoPolicy)}
 		if in.AnnoKind == 1 {
-			nr.Resources = corev1.ResourceList{}
+			nr.Resources = corev1.ResourceList{corev1.ResourceEphemeralStorage: resource.MustParse("10Gi")}
 			if in.AnnoHas[0] {
 				nr.Resources[corev1.ResourceCPU] = c09Q(c09CPU, in.AnnoRes[0])
 			}
 		} else {
-			nr.ReservedCPUs = fmt.Sprintf("0-%d", in.AnnoRes[0]/1000-1)
-			if in.AnnoRes[0] == 1000 {
+			n := in.AnnoRes[0] / 1000
+			switch {
+			case n == 1:
 				nr.ReservedCPUs = "0"
+			case in.AnnoHoles: // every other CPU, then a tail range: "0,2,4,...," + "k-m"
+				parts := []string{}
+				half := n / 2
+				for i := int64(0); i < half; i++ {
+					parts = append(parts, fmt.Sprint(2*i))
+				}
+				lo := 2 * half
+				parts = append(parts, fmt.Sprintf("%d-%d", lo, lo+(n-half)-1))
+				if n-half == 1 {
+					parts[len(parts)-1] = fmt.Sprint(lo)
+				}
+				nr.ReservedCPUs = joinComma(parts)
+			default:
+				nr.ReservedCPUs = fmt.Sprintf("0-%d", n-1)
 			}
 		}
 		if in.AnnoHas[1] {
@@ -446,6 +575,9 @@ func (in *c09Input) build(now time.Time) c09Objects {
 		}
 		b, _ := json.Marshal(nr)
 		node.Annotations[extension.AnnotationNodeReservation] = string(b)
+		if in.AnnoBroken {
+			node.Annotations[extension.AnnotationNodeReservation] = string(b[:len(b)-1])
+		}
 	}
 	// strategy
 	s := &configuration.ColocationStrategy{
@@ -455,6 +587,12 @@ func (in *c09Input) build(now time.Time) c09Objects {
 		ResourceDiffThreshold:         c09Ptr(0.1),
 		CPUReclaimThresholdPercent:    c09Ptr(in.Thr[0]),
 		MemoryReclaimThresholdPercent: c09Ptr(in.Thr[1]),
+	}
+	if in.DiffPermille > 0 {
+		s.ResourceDiffThreshold = c09Ptr(float64(in.DiffPermille) / 1000)
+	}
+	if in.UpdateSec > 0 {
+		s.UpdateTimeThresholdSeconds = c09Ptr(in.UpdateSec)
 	}
 	pols := [4]configuration.CalculatePolicy{"", configuration.CalculateByPodUsage, configuration.CalculateByPodRequest, configuration.CalculateByPodMaxUsageRequest}
 	if in.Policy[0] != c09PolNil {
@@ -469,17 +607,42 @@ func (in *c09Input) build(now time.Time) c09Objects {
 	if in.CapPct[1] >= 0 {
 		s.BatchMemoryThresholdPercent = c09Ptr(in.CapPct[1])
 	}
-	if in.ThrViaLabel[0] || in.ThrViaLabel[1] {
-		// the strategy field carries the cluster default, the node label overrides it
+	if in.ThrViaLabel[0] || in.ThrViaLabel[1] || in.Layer != 0 {
+		// the values travel through sloconfig.GetNodeColocationStrategy: cluster strategy < first matching nodeConfigs
+		// entry < node annotation < reclaim-ratio labels
+		cfg := &configuration.ColocationCfg{ColocationStrategy: *s}
+		if in.Layer != 0 {
+			upper := *s // the real values
+			upper.Enable, upper.UpdateTimeThresholdSeconds, upper.ResourceDiffThreshold = nil, nil, nil
+			cluster := configuration.ColocationStrategy{Enable: s.Enable, UpdateTimeThresholdSeconds: s.UpdateTimeThresholdSeconds, ResourceDiffThreshold: s.ResourceDiffThreshold,
+				CPUReclaimThresholdPercent: c09Ptr(int64(100)), MemoryReclaimThresholdPercent: c09Ptr(int64(100)), DegradeTimeMinutes: c09Ptr(int64(100000000))}
+			cfg.ColocationStrategy = cluster
+			if in.Layer == 1 {
+				b, _ := json.Marshal(upper)
+				node.Annotations[extension.AnnotationNodeColocationStrategy] = string(b)
+			} else {
+				node.Labels["c09-pool"] = "a"
+				decoy := configuration.ColocationStrategy{CPUReclaimThresholdPercent: c09Ptr(int64(100)), MemoryReclaimThresholdPercent: c09Ptr(int64(100)), BatchCPUThresholdPercent: c09Ptr(int64(1000))}
+				cfg.NodeConfigs = []configuration.NodeColocationCfg{
+					{NodeCfgProfile: configuration.NodeCfgProfile{Name: "other", NodeSelector: &metav1.LabelSelector{MatchLabels: map[string]string{"c09-pool": "b"}}}, ColocationStrategy: decoy},
+					{NodeCfgProfile: configuration.NodeCfgProfile{Name: "mine", NodeSelector: &metav1.LabelSelector{MatchLabels: map[string]string{"c09-pool": "a"}}}, ColocationStrategy: upper},
+					{NodeCfgProfile: configuration.NodeCfgProfile{Name: "later", NodeSelector: &metav1.LabelSelector{MatchLabels: map[string]string{"c09-pool": "a"}}}, ColocationStrategy: decoy},
+				}
+			}
+		}
 		if in.ThrViaLabel[0] {
-			s.CPUReclaimThresholdPercent = c09Ptr(int64(60))
+			if in.Layer == 0 {
+				cfg.CPUReclaimThresholdPercent = c09Ptr(int64(60))
+			}
 			node.Labels[extension.LabelCPUReclaimRatio] = c09Ratio(in.Thr[0])
 		}
 		if in.ThrViaLabel[1] {
-			s.MemoryReclaimThresholdPercent = c09Ptr(int64(65))
+			if in.Layer == 0 {
+				cfg.MemoryReclaimThresholdPercent = c09Ptr(int64(65))
+			}
 			node.Labels[extension.LabelMemoryReclaimRatio] = c09Ratio(in.Thr[1])
 		}
-		s = sloconfig.GetNodeColocationStrategy(&configuration.ColocationCfg{ColocationStrategy: *s}, node)
+		s = sloconfig.GetNodeColocationStrategy(cfg, node)
 	}
 	o.strategy, o.node = s, node
 	// pods and metrics
@@ -489,21 +652,21 @@ func (in *c09Input) build(now time.Time) c09Objects {
 		info := &slov1alpha1.NodeMetricInfo{}
 		var total c09Res
 		if !in.SysEmpty {
-			info.SystemUsage = slov1alpha1.ResourceMap{ResourceList: c09RL(in.Sys)}
+			info.SystemUsage = slov1alpha1.ResourceMap{ResourceList: c09RLOmit(in.Sys, in.SysOmit)}
 			total = in.Sys
 		}
 		for i := range in.Pods {
 			p := &in.Pods[i]
 			if p.HasMetric {
 				qos := p.QoSLabel
-				nm.Status.PodsMetric = append(nm.Status.PodsMetric, &slov1alpha1.PodMetricInfo{Name: p.Name, Namespace: c09NS,
-					PodUsage: slov1alpha1.ResourceMap{ResourceList: c09RL(p.Usage)}, Priority: p.Class, QoS: qos})
+				nm.Status.PodsMetric = append(nm.Status.PodsMetric, &slov1alpha1.PodMetricInfo{Name: p.Name, Namespace: p.NS,
+					PodUsage: slov1alpha1.ResourceMap{ResourceList: c09RLOmit(p.Usage, p.UsageOmit)}, Priority: p.Class, QoS: qos})
 				total[0] += p.Usage[0]
 				total[1] += p.Usage[1]
 			}
 		}
 		for _, d := range in.Dangling {
-			nm.Status.PodsMetric = append(nm.Status.PodsMetric, &slov1alpha1.PodMetricInfo{Name: d.Name, Namespace: c09NS,
+			nm.Status.PodsMetric = append(nm.Status.PodsMetric, &slov1alpha1.PodMetricInfo{Name: d.Name, Namespace: d.NS,
 				PodUsage: slov1alpha1.ResourceMap{ResourceList: c09RL(d.Usage)}, Priority: d.Prio})
 			total[0] += d.Usage[0]
 			total[1] += d.Usage[1]
@@ -532,6 +695,10 @@ func (in *c09Input) build(now time.Time) c09Objects {
 			for res := 0; res < 2; res++ {
 				q := c09Q(res, zc[res])
 				zone.Resources = append(zone.Resources, topologyv1alpha1.ResourceInfo{Name: c09ResName[res], Capacity: q, Allocatable: q, Available: q})
+			}
+			if i%2 == 1 { // resources the plugin does not manage
+				hp := resource.MustParse("2Gi")
+				zone.Resources = append(zone.Resources, topologyv1alpha1.ResourceInfo{Name: "hugepages-2Mi", Capacity: hp, Allocatable: hp, Available: hp})
 			}
 			nrt.Zones = append(nrt.Zones, zone)
 		}
@@ -776,7 +943,7 @@ func c09Amt(r *kit.Rand, scale int64, loPm, hiPm int) int64 {
 var c09QoSAll = []extension.QoSClass{extension.QoSLSE, extension.QoSLSR, extension.QoSLS, extension.QoSBE, extension.QoSSystem, extension.QoSNone}
 
 func c09GenPod(r *kit.Rand, name string, cap c09Res, scalePm int, zones int) c09Pod {
-	p := c09Pod{Name: name, PrioVal: -1}
+	p := c09Pod{NS: c09NS, Name: name, PrioVal: -1}
 	p.Class = []extension.PriorityClass{extension.PriorityProd, extension.PriorityMid, extension.PriorityBatch, extension.PriorityFree}[r.Weighted(50, 15, 25, 10)]
 	if r.Pct(85) { // combinations the admission webhook accepts
 		switch p.Class {
@@ -823,9 +990,16 @@ func c09GenPod(r *kit.Rand, name string, cap c09Res, scalePm int, zones int) c09
 			p.Init[res] = c09Amt(r, total[res], 300, 2000)
 		}
 	}
+	if r.Pct(8) { // a sidecar (restartable init container), before or after the plain init container
+		for res := 0; res < 2; res++ {
+			p.Sidecar[res] = c09Amt(r, total[res], 50, 600) + int64(r.Intn(2))
+		}
+		p.SidecarFirst = r.Bool()
+	}
 	if r.Pct(10) {
 		p.Overhead = c09Res{int64(r.Range(0, 250)), int64(r.Range(0, 1<<27))}
 	}
+	p.Terminating = r.Pct(5)
 	// how the priority class is expressed
 	feasible := []int{0, 1}
 	defQoS := map[extension.QoSClass]extension.PriorityClass{extension.QoSLSE: extension.PriorityProd, extension.QoSLSR: extension.PriorityProd,
@@ -834,7 +1008,7 @@ func c09GenPod(r *kit.Rand, name string, cap c09Res, scalePm int, zones int) c09
 		feasible = append(feasible, 2, 2)
 	}
 	if p.QoSLabel == "" {
-		sumAll := total[0] + total[1] + p.Init[0] + p.Init[1]
+		sumAll := total[0] + total[1] + p.Init[0] + p.Init[1] + p.Sidecar[0] + p.Sidecar[1]
 		if p.Class == extension.PriorityProd && sumAll > 0 { // Burstable -> LS -> prod
 			feasible = append(feasible, 3, 3)
 		}
@@ -843,6 +1017,16 @@ func c09GenPod(r *kit.Rand, name string, cap c09Res, scalePm int, zones int) c09
 		}
 	}
 	p.Repr = kit.Pick(r, feasible)
+	if p.Repr == 3 {
+		p.StatusQoS = r.Bool()
+	} else if r.Pct(4) { // pod-level requests: at least the container aggregate, replace it
+		for res := 0; res < 2; res++ {
+			if r.Pct(70) {
+				p.PodLevelHas[res] = true
+				p.PodLevel[res] = total[res] + p.Sidecar[res] + c09Amt(r, total[res]+1000, 0, 500)
+			}
+		}
+	}
 	switch p.Repr {
 	case 1:
 		band := map[extension.PriorityClass][2]int32{extension.PriorityProd: {9000, 9999}, extension.PriorityMid: {7000, 7999},
@@ -882,6 +1066,10 @@ func c09GenPod(r *kit.Rand, name string, cap c09Res, scalePm int, zones int) c09
 	if p.lse() && p.Usage[0] > total[0] { // causal rule: exclusive cpuset, usage <= request
 		p.Usage[0] = total[0] - r.Int63n(total[0]/4+1)
 	}
+	if r.Pct(5) { // a usage without one of the keys
+		res := r.Intn(2)
+		p.UsageOmit[res], p.Usage[res] = true, 0
+	}
 	if zones > 1 && r.Pct(35) {
 		for z := 0; z < zones; z++ {
 			if r.Pct(50) {
@@ -894,6 +1082,7 @@ func c09GenPod(r *kit.Rand, name string, cap c09Res, scalePm int, zones int) c09
 	} else if zones == 1 && r.Pct(20) {
 		p.NUMA = []int{0}
 	}
+	p.NUMABroken = zones > 0 && r.Pct(2)
 	return p
 }
 
@@ -924,7 +1113,7 @@ func c09GenInput(r *kit.Rand) *c09Input {
 	case 2, 3:
 		z := 2
 		if r.Pct(36) {
-			z = 4
+			z = kit.Pick(r, []int{4, 4, 4, 3, 8})
 		}
 		in.Zones = make([]c09Res, z)
 		even := r.Pct(70)
@@ -944,7 +1133,7 @@ func c09GenInput(r *kit.Rand) *c09Input {
 		}
 	}
 	// pods: a load level decides how big requests are relative to the node
-	n := []int{0, r.Range(1, 4), r.Range(5, 12)}[r.Weighted(5, 45, 50)]
+	n := []int{0, r.Range(1, 4), r.Range(5, 12), r.Range(13, 40)}[r.Weighted(5, 43, 47, 5)]
 	level := []int{400, 900, 1600}[r.Weighted(40, 35, 25)]
 	scalePm := level
 	if n > 0 {
@@ -953,24 +1142,55 @@ func c09GenInput(r *kit.Rand) *c09Input {
 	for i := 0; i < n; i++ {
 		in.Pods = append(in.Pods, c09GenPod(r, fmt.Sprintf("pod-%d", i), in.Cap, scalePm, len(in.Zones)))
 	}
+	// namespaces: the metric of a pod is found by namespace/name; names repeat across namespaces
+	nss := []string{c09NS, "c09-b", "kube-system"}
+	used := map[string]bool{}
+	for i := range in.Pods {
+		p := &in.Pods[i]
+		p.NS = nss[r.Weighted(70, 20, 10)]
+		if i > 0 && r.Pct(12) {
+			other := in.Pods[r.Intn(i)]
+			for _, ns := range nss {
+				if !used[ns+"/"+other.Name] {
+					p.NS, p.Name = ns, other.Name
+					break
+				}
+			}
+		}
+		used[p.NS+"/"+p.Name] = true
+	}
 	if r.Pct(35) {
-		for i, k := 0, r.Range(1, 3); i < k; i++ {
-			d := c09Metric{Name: fmt.Sprintf("gone-%d", i)}
+		for i, k := 0, []int{r.Range(1, 3), r.Range(4, 6)}[r.Weighted(85, 15)]; i < k; i++ {
+			d := c09Metric{NS: c09NS, Name: fmt.Sprintf("gone-%d", i)}
+			if len(in.Pods) > 0 && r.Pct(30) { // same name as a listed pod, other namespace
+				other := in.Pods[r.Intn(len(in.Pods))]
+				for _, ns := range nss {
+					if !used[ns+"/"+other.Name] {
+						d.NS, d.Name = ns, other.Name
+						break
+					}
+				}
+			}
+			used[d.NS+"/"+d.Name] = true
 			d.Prio = []extension.PriorityClass{extension.PriorityProd, extension.PriorityMid, extension.PriorityBatch, extension.PriorityFree, extension.PriorityNone}[r.Weighted(45, 15, 25, 10, 5)]
 			d.Usage = c09Res{c09Amt(r, in.Cap[0], 0, 150), c09Amt(r, in.Cap[1], 0, 150)}
 			in.Dangling = append(in.Dangling, d)
 		}
 	}
 	if r.Pct(25) {
-		for i, k := 0, r.Range(1, 2); i < k; i++ {
+		for i, k := 0, []int{r.Range(1, 2), r.Range(3, 4)}[r.Weighted(85, 15)]; i < k; i++ {
 			h := c09Metric{Name: fmt.Sprintf("hostapp-%d", i)}
-			h.Prio = []extension.PriorityClass{extension.PriorityProd, extension.PriorityMid, extension.PriorityBatch, extension.PriorityFree}[r.Weighted(50, 15, 30, 5)]
+			h.Prio = []extension.PriorityClass{extension.PriorityProd, extension.PriorityMid, extension.PriorityBatch, extension.PriorityFree, extension.PriorityNone}[r.Weighted(48, 15, 29, 5, 3)]
 			h.Usage = c09Res{c09Amt(r, in.Cap[0], 0, 150), c09Amt(r, in.Cap[1], 0, 150)}
 			in.HostApps = append(in.HostApps, h)
 		}
 	}
 	in.Sys = c09Res{c09Amt(r, in.Cap[0], 0, 250), c09Amt(r, in.Cap[1], 0, 250)}
 	in.SysEmpty = r.Pct(5)
+	if !in.SysEmpty && r.Pct(4) {
+		res := r.Intn(2)
+		in.SysOmit[res], in.Sys[res] = true, 0
+	}
 	if r.Pct(50) {
 		in.KubeletReserved = c09Res{c09Amt(r, in.Cap[0], 0, 200), c09Amt(r, in.Cap[1], 0, 200)}
 		if r.Pct(20) {
@@ -987,6 +1207,17 @@ func c09GenInput(r *kit.Rand) *c09Input {
 		nres := int64(r.Range(1, int(c09Max(1, (in.Cap[0]/1000)/4))))
 		in.AnnoRes = c09Res{nres * 1000, c09Amt(r, in.Cap[1], 0, 250)}
 		in.AnnoHas = [2]bool{true, r.Pct(50)}
+		in.AnnoHoles = r.Pct(40)
+	}
+	if in.AnnoKind != 0 {
+		in.AnnoPolicy = []string{"", string(extension.NodeReservationApplyPolicyDefault), string(extension.NodeReservationApplyPolicyReservedCPUsOnly)}[r.Weighted(60, 25, 15)]
+		in.AnnoBroken = r.Pct(2)
+	}
+	if r.Pct(5) { // tie: system usage exactly at the reservation
+		res := r.Intn(2)
+		if v := in.reserved()[res] - (in.systemUsed()[res] - in.Sys[res]); !in.SysEmpty && !in.SysOmit[res] && v >= 0 {
+			in.Sys[res] = v
+		}
 	}
 	// strategy
 	for res := 0; res < 2; res++ {
@@ -1008,8 +1239,9 @@ func c09GenInput(r *kit.Rand) *c09Input {
 	}
 	in.Policy[0] = []int{c09PolNil, c09PolUsage, c09PolMax}[r.Weighted(20, 40, 40)]
 	in.Policy[1] = []int{c09PolNil, c09PolUsage, c09PolRequest, c09PolMax}[r.Weighted(10, 30, 30, 30)]
-	in.DegradeMin = kit.Pick(r, []int64{1, 5, 15, 60, 1440})
+	in.DegradeMin = kit.Pick(r, []int64{1, 5, 15, 15, 60, 1440, int64(r.Range(1, 10000)), 525600, 100000000})
 	in.AgeNanos = r.Int63n(in.DegradeMin*60) * int64(time.Second) // fresh
+	in.Layer = r.Weighted(76, 12, 12)
 	return in
 }
 
@@ -1020,7 +1252,7 @@ func c09Steer(r *kit.Rand, in *c09Input) bool {
 	b := c09Bound(in, res, -1, c09Variant{lseAtRequest: true})
 	fl := new(big.Int).Quo(b.Num(), b.Denom()).Int64()
 	shift := fl + int64(r.Range(-1, 1))
-	if in.SysEmpty || in.systemUsed()[res] < in.reserved()[res] || in.Sys[res]+shift < 0 {
+	if in.SysEmpty || in.SysOmit[res] || in.systemUsed()[res] < in.reserved()[res] || in.Sys[res]+shift < 0 {
 		return false
 	}
 	if in.systemUsed()[res]+shift < in.reserved()[res] {
@@ -1080,7 +1312,8 @@ func c09Probe(r *kit.Rand, base *c09Input, kind int) (in *c09Input, name, desc s
 			}
 		}
 		p.Usage[res] += d
-		desc = fmt.Sprintf("usage of %s %s += %d", p.Name, c09ResName[res], d)
+		p.UsageOmit[res] = false
+		desc = fmt.Sprintf("usage of %s/%s %s += %d", p.NS, p.Name, c09ResName[res], d)
 	case 1:
 		name = "pod-request"
 		p := pickPod(func(p *c09Pod) bool { return p.live() && p.hp() })
@@ -1102,6 +1335,7 @@ func c09Probe(r *kit.Rand, base *c09Input, kind int) (in *c09Input, name, desc s
 			in.Sys = c09Res{}
 		}
 		in.Sys[res] += d
+		in.SysOmit[res] = false
 		desc = fmt.Sprintf("system usage %s += %d", c09ResName[res], d)
 	case 3:
 		name = "hostapp-usage"
@@ -1281,6 +1515,69 @@ func TestVerifC09Calculate(t *testing.T) {
 				}
 			}
 			c.Count("hp_pods", hp)
+			// evidence that the widened dimensions are reached, and a self-check of the generator's model of a pod's
+			// request against the Kubernetes helper that defines it (a mismatch is a harness error, not a verdict)
+			names := map[string]int{}
+			for i := range in.Pods {
+				p := &in.Pods[i]
+				names[p.Name]++
+				got := koordutil.GetPodRequest(&base.objs.pods.Items[i], corev1.ResourceCPU, corev1.ResourceMemory)
+				if want := p.request(); got.Cpu().MilliValue() != want[0] || got.Memory().Value() != want[1] {
+					c.Harness("model of pod request is wrong for %+v: model %v, kubernetes helper cpu=%d mem=%d", *p, want, got.Cpu().MilliValue(), got.Memory().Value())
+				}
+				if p.Sidecar != (c09Res{}) {
+					c.Count("dim_pods_with_sidecar", 1)
+				}
+				if p.PodLevelHas[0] || p.PodLevelHas[1] {
+					c.Count("dim_pods_with_pod_level_request", 1)
+				}
+				if p.Terminating {
+					c.Count("dim_pods_terminating", 1)
+				}
+				if p.UsageOmit[0] || p.UsageOmit[1] {
+					c.Count("dim_usage_key_omitted", 1)
+				}
+				if p.NUMABroken {
+					c.Count("dim_numa_annotation_broken", 1)
+				}
+			}
+			for _, n := range names {
+				if n > 1 {
+					c.Count("dim_pod_name_shared_across_namespaces", 1)
+				}
+			}
+			for _, d := range in.Dangling {
+				if names[d.Name] > 0 {
+					c.Count("dim_dangling_name_of_listed_pod", 1)
+				}
+			}
+			if len(in.Pods) > 12 {
+				c.Count("dim_more_than_12_pods", 1)
+			}
+			if len(in.Zones) == 3 || len(in.Zones) == 8 {
+				c.Count("dim_zones_3_or_8", 1)
+			}
+			if in.AnnoKind != 0 && in.AnnoPolicy == string(extension.NodeReservationApplyPolicyReservedCPUsOnly) {
+				c.Count("dim_reservation_reservedcpusonly", 1)
+			}
+			if in.AnnoBroken {
+				c.Count("dim_reservation_annotation_broken", 1)
+			}
+			if in.AnnoKind == 2 && in.AnnoHoles {
+				c.Count("dim_reservedcpus_with_holes", 1)
+			}
+			c.Count(fmt.Sprintf("dim_strategy_layer_%d", in.Layer), 1)
+			if in.DegradeMin > 100000 {
+				c.Count("dim_degrade_time_years", 1)
+			}
+			if in.SysOmit[0] || in.SysOmit[1] {
+				c.Count("dim_system_usage_key_omitted", 1)
+			}
+			for res := 0; res < 2; res++ {
+				if in.systemUsed()[res] == in.reserved()[res] && in.reserved()[res] > 0 {
+					c.Count("dim_system_usage_equals_reservation", 1)
+				}
+			}
 			c.Count("hp_pods_without_metric", noMetric)
 			c.Count("hp_lse_pods_with_metric", lse)
 			if steered {
@@ -1338,7 +1635,7 @@ func TestVerifC09Degrade(t *testing.T) {
 			case 3:
 				in.AgeNanos = d + int64(time.Second)
 			case 4:
-				in.AgeNanos = 2 * d
+				in.AgeNanos = d + c09MinI64(d, 10*365*24*int64(time.Hour))
 			case 5:
 				in.AgeNanos = int64(r.Range(1, 20)) * 365 * 24 * int64(time.Hour)
 			case 6:
@@ -1353,7 +1650,7 @@ func TestVerifC09Degrade(t *testing.T) {
 			c.Op("input ageClass=%d %+v", cls, *in)
 			out := c09Run(c, in, "eval")
 			stale, boundary := in.stale()
-			c.Seen(in.DegradeMin, cls, in.MetricKind, out.reset)
+			c.Seen(c09DegradeBucket(in.DegradeMin), cls, in.MetricKind, out.reset)
 			switch {
 			case stale:
 				c.NonTrivial()
@@ -1527,7 +1824,7 @@ func TestVerifC09Prepare(t *testing.T) {
 			in := c09GenInput(r)
 			if r.Pct(12) {
 				if r.Bool() {
-					in.AgeNanos = 2 * in.DegradeMin * int64(time.Minute)
+					in.AgeNanos = in.DegradeMin*int64(time.Minute) + c09MinI64(in.DegradeMin*int64(time.Minute), 10*365*24*int64(time.Hour))
 				} else {
 					in.MetricKind = 2
 				}
@@ -1776,7 +2073,7 @@ func c09NRTBatch(nrt *topologyv1alpha1.NodeResourceTopology, zone int, res int) 
 func TestVerifC09NRTHistory(t *testing.T) {
 	c09Setup(t)
 	kit.Run(t, kit.Config{Property: "C09", Unit: "nrt-history", Quick: 4000, Thorough: 200000,
-		Rule: "same input generator with 1/2/4 NUMA zones forced; histories of 2-4 reconcile rounds (Calculate -> PreUpdate -> Prepare on a node copy) against one persistent NRT stub and an advancing fake clock: fresh rounds (inputs perturbed between rounds), then rounds in which the metric is older than the degrade time or the NodeMetric object is gone, optionally a recovery round; 30% start from an NRT that already carries batch amounts of an earlier controller lifetime, 30% restart the controller (empty sync context) before a round, cpu-normalization ratio absent or 1.00-3.00; oracle after every round; distinct = (zones, round kinds, preexisting, restart, ratio>1, amounts on NRT before the degraded round); non-trivial = a degraded round that starts with non-zero batch amounts on the NRT"},
+		Rule: "same input generator with 1/2/3/4/8 NUMA zones forced; histories of 1-6 reconcile rounds (Calculate -> PreUpdate -> Prepare on a node copy) against one persistent NRT stub and an advancing fake clock: fresh rounds (inputs perturbed between rounds), then rounds in which the metric is older than the degrade time or the NodeMetric object is gone, optionally a recovery round; 30% start from an NRT that already carries batch amounts of an earlier controller lifetime, 30% restart the controller (empty sync context) before a round, cpu-normalization ratio absent or 1.00-3.00; oracle after every round; distinct = (zones, round kinds, preexisting, restart, ratio>1, amounts on NRT before the degraded round); non-trivial = a degraded round that starts with non-zero batch amounts on the NRT"},
 		func(c *kit.Case) {
 			r := c.R
 			in := c09GenInput(r)
@@ -1786,19 +2083,27 @@ func TestVerifC09NRTHistory(t *testing.T) {
 				in = &c09Input{Cap: c09Res{100000, 100 * gi}, Zones: []c09Res{{50000, 50 * gi}, {50000, 50 * gi}}, Thr: [2]int64{100, 100}, CapPct: [2]int64{-1, -1}, DegradeMin: 15}
 			}
 			if in.Zones == nil {
-				z := kit.Pick(r, []int{1, 2, 2, 4})
+				z := kit.Pick(r, []int{1, 2, 2, 4, 3, 8})
 				in.Zones = make([]c09Res, z)
 				for i := range in.Zones {
 					in.Zones[i] = c09Res{in.Cap[0] / int64(z), in.Cap[1] / int64(z)}
 				}
 			}
 			zn := len(in.Zones)
+			if in.DegradeMin > 100000 { // keep the history inside the range of time.Duration
+				in.DegradeMin = 60
+				in.AgeNanos = 0
+			}
+			if !minimal && r.Pct(50) {
+				in.DiffPermille = kit.Pick(r, []int64{1, 50, 100, 500, 1000})
+				in.UpdateSec = kit.Pick(r, []int64{1, 60, 300, 3600})
+			}
 			ratioPct := int64(-1)
 			if r.Pct(35) {
-				ratioPct = kit.Pick(r, []int64{100, 101, 120, 150, 200, 300})
+				ratioPct = kit.Pick(r, []int64{100, 101, 120, 150, 200, 300, 500})
 			}
 			// round kinds: f fresh, s stale (metric not refreshed), m NodeMetric object gone
-			kinds := kit.Pick(r, []string{"fs", "fs", "fm", "ffs", "fsf", "fss", "fsfs", "s", "m", "ffm"})
+			kinds := kit.Pick(r, []string{"fs", "fs", "fm", "ffs", "fsf", "fss", "fsfs", "s", "m", "ffm", "fsfsfs", "ffffs", "fffsf", "fmf", "fsmf"})
 			preexisting := r.Pct(30) || kinds == "s" || kinds == "m"
 			if minimal {
 				ratioPct, kinds, preexisting = -1, "fs", false
